@@ -22,6 +22,10 @@ def run(ck, tier):
     _infl.run(ck, F, 'C02')
     from . import mustpass as _mp
     _mp.run(ck, F, 'C02')
+    from . import accum as _acc2
+    _acc2.run2(ck, F, 'C02')
+    from . import siblings as _sib
+    _sib.check(ck, F, 'C02')
     from . import accum as _acc
     _acc.run(ck, F, 'C02')
     from . import c12x
